@@ -211,6 +211,7 @@ BrList(p, j, first, after, items, un) ==
 (*                    [t |-> "q"]               ?  any one character       *)
 (*                    [t |-> "s"]               *  any string              *)
 (*                    [t |-> "b", neg, items]   bracket expression         *)
+(*                       (+ qh: a quoted "-" occurs in it; descriptive)    *)
 (* An unquoted "[" that does not introduce a bracket expression matches    *)
 (* itself (XCU 2.14.1).                                                    *)
 (***************************************************************************)
@@ -233,7 +234,10 @@ ParseFrom(p, i) ==
             ELSE LET r  == ParseFrom(p, b.next)
                      mu == IF neg /\ \E n \in 1..Len(b.items) : Multi(b.items[n])
                            THEN {"multi-character element in a non-matching list"} ELSE {}
-                 IN [atoms |-> <<[t |-> "b", neg |-> neg, items |-> b.items]>> \o r.atoms,
+                 IN [atoms |-> <<[t |-> "b", neg |-> neg, items |-> b.items,
+                                  \* (descriptive only, used to name pattern shapes in reports)
+                                  qh |-> \E j \in (i + 1)..(b.next - 2) : p[j].l /\ p[j].c = "-"]>>
+                               \o r.atoms,
                      un    |-> b.un \cup mu \cup r.un]
     ELSE Plain
 
@@ -247,6 +251,22 @@ Parse(p) == LET r == ParseFrom(p, 1)
             IN [atoms |-> r.atoms, un |-> r.un, mc |-> HasMulti(r.atoms)]
 
 Specified(p) == Parse(p).un = {}
+
+(***************************************************************************)
+(* Descriptive shape of a pattern: contents of its collating symbols and   *)
+(* equivalence classes and two structural notes.  Used by the checks only  *)
+(* to NAME the shape of a pattern in reports (keys of known findings);     *)
+(* never used to decide a match.                                           *)
+(***************************************************************************)
+Brackets(A) == {a \in 1..Len(A) : A[a].t = "b"}
+SymItems(b) == {m \in 1..Len(b.items) : b.items[m].k \in {"sym", "eqv"}}
+Syms(A) == UNION {{A[a].items[m].s : m \in SymItems(A[a])} : a \in Brackets(A)}
+ShapeNotes(A) ==
+  (IF \E a \in Brackets(A) : A[a].qh THEN {"quoted-hyphen-in-bracket"} ELSE {})
+  \cup
+  (IF \E a \in Brackets(A) : A[a].neg /\ \E m \in SymItems(A[a]) :
+          Len(A[a].items[m].s) = 1 /\ Code(A[a].items[m].s[1]) = NonAscii
+   THEN {"non-ascii-symbol-in-non-matching-list"} ELSE {})
 
 (***************************************************************************)
 (* Matching.                                                               *)
